@@ -13,5 +13,6 @@ INVARIANT Agreement
 INVARIANT ExactlyOneSetSucceeds
 INVARIANT Emit
 PROPERTY WriteOnce
+PROPERTY Linearizable
 PROPERTY RunnerOwnsCell
 CHECK_DEADLOCK TRUE
